@@ -36,6 +36,23 @@ mention and that therefore must not change the number of executions:
                               after the Receiver was constructed
   retry_cls: "base"|"sub"     SimpleRetryMiddleware itself or a trivial subclass of it
   fmt: "proxy"|"json"         the broker's formatter: the default ProxyFormatter (+ serializer) or taskiq's JSONFormatter
+  pause: None|"sleep0"|"sleep0x3"|"timer"|"future"   a coroutine-function body really suspends before it acts (one / three turns
+                              of the loop, a timer of virtual time, a future somebody else resolves); None: the body finishes
+                              without a single suspension point (pure computation, immediate raise)
+  broker: "scripted"|"inmem"  "scripted" (default): the recording broker keeps every kicked message and the harness delivers them
+                              one after the other.  "inmem": the attempts travel through the REAL taskiq InMemoryBroker - its own
+                              kick() hands every message (the first one and every re-send of the retry middleware, sent from
+                              INSIDE the failing attempt's run_task) to its own Receiver, in its default mode as a spawned asyncio
+                              task per message, so attempts may overlap if the broker lets them; the harness only waits until all
+                              spawned work has settled and then reads what the result backend (the real InmemoryResultBackend,
+                              recording) HOLDS for the task id (observation "settled").  See InMemScenario.  Options:
+      inplace: bool           InMemoryBroker(await_inplace=..)  (default False; True = kick awaits the callback in place, the
+                              attempts nest inside on_error: known finding D17, generated at a small rate, see notes/C11.md)
+      pool: n, stored: n      sync_tasks_pool_size, max_stored_results;  propagate / validate / A as for the Receiver
+      startup: bool           broker.startup() before the send, broker.shutdown() after everything settled
+      bystanders: n           n unrelated tasks (other name, other ids, really awaiting) are kicked through the same broker
+                              right before the send and run interleaved with the attempts
+      (ack, ackable, P, N, wtt, cli, via, fresh do not exist on that path and are ignored)
 Nothing of /repo is edited or re-implemented: the env only chooses which real objects are built and how they are called.
 
 "typed" (optional, see harness/retry_typed.py): the task function has annotated parameters (pydantic models with constant /
@@ -46,6 +63,7 @@ default_factory defaults, dataclasses, containers of them, plain types, none) an
 claim about the first attempt) and "typed_src" (the function's source text).  case["args"] / case["kwargs"] are unused."""
 import asyncio
 import concurrent.futures
+import contextvars
 import importlib
 import inspect
 import json
@@ -57,6 +75,7 @@ import retry_typed as RT
 import vloop
 from taskiq import Context, SimpleRetryMiddleware, TaskiqDepends, TaskiqMiddleware
 from taskiq.acks import AckableMessage, AcknowledgeType
+from taskiq.brokers.inmemory_broker import InMemoryBroker, InmemoryResultBackend
 from taskiq.exceptions import NoResultError
 from taskiq.formatters.json_formatter import JSONFormatter
 from taskiq.receiver import Receiver
@@ -372,12 +391,9 @@ def _install_clock():
 _install_clock()
 
 
-class ChildBackend(LD.RecBackend):
-    """RecBackend that additionally knows sub-tasks (ids "child..."): their result never arrives / asking for it fails"""
-
-    def __init__(self, log):
-        super().__init__(log)
-        self.child_mode = "never"
+class ChildMixin:
+    """a result backend that additionally knows sub-tasks (ids "child..."): their result never arrives / asking for it fails"""
+    child_mode = "never"
 
     async def is_result_ready(self, task_id):
         if str(task_id).startswith("child"):
@@ -390,6 +406,10 @@ class ChildBackend(LD.RecBackend):
         if str(task_id).startswith("child"):
             raise ConnectionError("result backend is down")
         return await super().get_result(task_id, with_logs=with_logs)
+
+
+class ChildBackend(ChildMixin, LD.RecBackend):
+    """the recording backend of the scripted path + sub-tasks"""
 
 
 class DropBroker(LD.AsyncBroker):
@@ -555,6 +575,26 @@ class Failures:
         _raise_chained(e, spec.get("chain"))
 
 
+async def pause(kind):
+    """a body that really suspends before it acts"""
+    if not kind:
+        return
+    if kind == "sleep0":
+        await asyncio.sleep(0)
+    elif kind == "sleep0x3":
+        for _ in range(3):
+            await asyncio.sleep(0)
+    elif kind == "timer":
+        await asyncio.sleep(0.01)
+    elif kind == "future":
+        loop = asyncio.get_running_loop()
+        fut = loop.create_future()
+        loop.call_soon(fut.set_result, None)
+        await fut
+    else:
+        raise ValueError(kind)
+
+
 def make_body(scen, env, typed=None):
     """the task function; same plan stepping / logging as labels_driver's body, in the shape env["fn"] asks for; with
     `typed`, the function with annotated parameters written by retry_typed.function_source"""
@@ -570,8 +610,11 @@ def make_body(scen, env, typed=None):
 
     def record(act, ctx, args, kwargs):
         failures.ctx = ctx
-        scen.body_log.append({"act": act, "ctx": LD.enc_dict(ctx.message.labels), "tid": ctx.message.task_id,
-                              "args": list(args), "kwargs": dict(kwargs)})
+        rec = {"act": act, "ctx": LD.enc_dict(ctx.message.labels), "tid": ctx.message.task_id,
+               "args": list(args), "kwargs": dict(kwargs)}
+        if hasattr(scen, "attempt_of"):         # InMemScenario: which delivery this body invocation belongs to
+            rec["attempt"] = scen.attempt_of(ctx.message)
+        scen.body_log.append(rec)
 
     def perform(act):
         if act == "fail":
@@ -585,6 +628,7 @@ def make_body(scen, env, typed=None):
         return "ok"
 
     async def aperform(act):
+        await pause(env.get("pause"))
         if act == "hang":
             await asyncio.sleep(3600)
             return "late"
@@ -771,6 +815,296 @@ class EnvScenario(LD.Scenario):
             mws[0:0] = make(env.get("mw_before", []))
 
 
+# ------------------------------------------------------------------ the attempts travel through the real InMemoryBroker
+# Everything above delivers the kicked messages ONE AFTER THE OTHER (the scripted broker collects them, the harness hands the
+# next one to a Receiver when the previous delivery is over).  A real broker does not wait: SimpleRetryMiddleware.on_error
+# re-sends from INSIDE the failing attempt's run_task, and taskiq's own InMemoryBroker.kick (default mode) spawns
+# Receiver.callback for the re-sent message as an asyncio task at once - the next attempt exists while the failing one has
+# not saved its result yet.  Which of the two saves LAST decides what the result backend holds in the end, and the statement
+# says it must be the final attempt's outcome.  Here the real InMemoryBroker does all the deliveries itself; the harness
+# attributes what it sees to the delivery it belongs to (a context variable set when Receiver.callback starts; for bodies in
+# pool threads the message object handed to run_task), waits until everything spawned is over and then asks the backend.
+_ATTEMPT = contextvars.ContextVar("c11_attempt", default=None)     # number of the delivery (callback invocation) we are in
+_KICKING = contextvars.ContextVar("c11_kicking", default=None)     # the BrokerMessage InMemoryBroker.kick is busy with
+
+
+class ObservedInMemoryBroker(InMemoryBroker):
+    """taskiq's InMemoryBroker; kick() notes who sent what and then runs InMemoryBroker.kick itself"""
+    scen = None
+
+    async def kick(self, message):
+        scen = self.scen
+        scen.kicks.append((_ATTEMPT.get(), message))
+        if len(scen.kicks) > scen.guard + scen.nby:       # a retry loop that never ends (the scripted path's guard)
+            scen.dropped += 1
+            return
+        tok = _KICKING.set(message)
+        try:
+            await super().kick(message)
+        finally:
+            _KICKING.reset(tok)
+
+
+class InMemBackend(ChildMixin, InmemoryResultBackend):
+    """taskiq's InmemoryResultBackend (it really keeps the results) + a note of every set_result call + sub-tasks"""
+
+    def __init__(self, scen, max_stored):
+        InmemoryResultBackend.__init__(self, max_stored_results=max_stored)
+        self.scen, self.saved = scen, []
+
+    async def set_result(self, task_id, result):
+        at = _ATTEMPT.get()
+        self.saved.append((at, task_id, result))
+        self.scen.log.append(("save", task_id, LD.enc_dict(result.labels), bool(result.is_err),
+                              type(result.error).__name__ if result.error is not None else None, at))
+        await super().set_result(task_id, result)
+
+
+class TagRecMiddleware(TaskiqMiddleware):
+    """labels_driver.RecMiddleware with the delivery number on every entry"""
+
+    def __init__(self, log):
+        super().__init__()
+        self.log = log
+
+    def pre_execute(self, message):
+        self.log.append(("pre", message.task_id, LD.enc_dict(message.labels), message.task_name, list(message.args),
+                         dict(message.kwargs), _ATTEMPT.get()))
+        return message
+
+    def post_execute(self, message, result):
+        self.log.append(("post", message.task_id, LD.enc_dict(message.labels), LD.enc_dict(result.labels), _ATTEMPT.get()))
+
+
+def _result_content(r):
+    return json.dumps([bool(r.is_err), type(r.error).__name__ if r.error is not None else None, repr(r.return_value),
+                       LD.enc_dict(r.labels)], default=str, sort_keys=True)
+
+
+class InMemScenario:
+    """one real InMemoryBroker (+ its own Receiver, thread pool and InmemoryResultBackend), the recording middleware, the retry
+    middleware, the task function of make_body; instance attributes of the broker's Receiver (`callback`, `run_task`) are
+    wrapped for attribution only - each wrapper awaits the real bound method and adds no suspension point of its own"""
+
+    def __init__(self, case, uid, env, typed=None):
+        self.case, self.env = case, env
+        self.log, self.body_log, self.plan, self.kicks, self.attempts = [], [], [], [], []
+        self.repeat_last = bool(case.get("repeat_last"))
+        self.guard = int(case.get("guard", 40))
+        self.nby = int(env.get("bystanders") or 0)
+        self.acks, self.teardown, self.typed_src = [], [], None
+        self.pending, self.dropped, self.msg_attempt = 0, 0, {}
+        self.idle = asyncio.Event()
+        mw = case.get("mw", {})
+        kw = dict(cast_types=env.get("validate", True), propagate_exceptions=env.get("propagate", True),
+                  await_inplace=bool(env.get("inplace", False)))
+        if "A" in env and env["A"] is not None:
+            kw["max_async_tasks"] = env["A"]
+        if env.get("pool") is not None:
+            kw["sync_tasks_pool_size"] = env["pool"]
+        b = self.broker = ObservedInMemoryBroker(**kw)
+        b.scen = self
+        n = [0]
+
+        def gen():
+            n[0] += 1
+            return "g%d" % (n[0] - 1)
+
+        b.with_id_generator(gen)
+        b.with_serializer({"json": LD.JSONSerializer, "pickle": LD.PickleSerializer}[case.get("ser", "json")]())
+        if env.get("fmt") == "json":
+            b.with_formatter(JSONFormatter())
+        self.backend = b.result_backend = InMemBackend(self, env.get("stored", 100) if env.get("stored") is not None else 100)
+        b.add_middlewares(TagRecMiddleware(self.log),
+                          SimpleRetryMiddleware(default_retry_count=mw.get("count", 100), default_retry_label=mw.get("label", True),
+                                                no_result_on_retry=mw.get("nror", True)))
+        self.brokers = [b]
+        self.install_middlewares()
+        body = make_body(self, env, typed)
+        t = case["tasks"][0]
+        self.names = ["c%s_t0" % uid]
+
+        async def placeholder(*args, **kwargs):      # (as EnvScenario does: the generated function has no module of its own)
+            raise AssertionError("harness: the placeholder ran")
+
+        self.tasks = [b.task(task_name=self.names[0], **LD.dec_pairs(t["labels"]))(placeholder)]
+        self.tasks[0].original_func = body
+
+        async def bystander(i):
+            await asyncio.sleep(0)
+            await asyncio.sleep(0.001 * (i + 1))
+            return "by%d" % i
+
+        self.by_task = b.task(task_name="c%s_bystander" % uid)(bystander)
+        self.wrap_receiver(b.receiver)
+
+    install_middlewares = EnvScenario.install_middlewares
+
+    def snapshot(self):
+        return [LD.enc_dict(t.labels) for t in self.tasks]
+
+    def attempt_of(self, message):
+        at = _ATTEMPT.get()
+        if at is not None:
+            return at
+        ent = self.msg_attempt.get(id(message))         # a pool thread does not inherit the context of the loop's task
+        return ent[0] if ent is not None and ent[1] is message else None
+
+    def wrap_receiver(self, recv):
+        scen = self
+        real_cb, real_rt = recv.callback, recv.run_task
+
+        def callback(message, raise_err=False):
+            bm = _KICKING.get()
+            st = {"n": len(scen.attempts), "tid": getattr(bm, "task_id", None), "raised": None, "done": False}
+            scen.attempts.append(st)
+            scen.pending += 1
+
+            async def run():
+                tok = _ATTEMPT.set(st["n"])
+                try:
+                    await real_cb(message=message, raise_err=raise_err)
+                except BaseException as e:  # noqa: BLE001
+                    st["raised"] = type(e).__name__
+                    raise
+                finally:
+                    _ATTEMPT.reset(tok)
+                    st["done"] = True
+                    scen.pending -= 1
+                    if not scen.pending:
+                        scen.idle.set()
+
+            return run()
+
+        async def run_task(*a, **kw):
+            message = kw.get("message", a[1] if len(a) > 1 else None)
+            scen.msg_attempt[id(message)] = (_ATTEMPT.get(), message)
+            return await real_rt(*a, **kw)
+
+        recv.callback, recv.run_task = callback, run_task
+
+    async def settle(self):
+        """wait until every delivery the broker spawned (and everything those spawned) is over"""
+        for _ in range(500):
+            seen = len(self.attempts)
+            if self.pending:
+                self.idle.clear()
+                try:
+                    await asyncio.wait_for(self.idle.wait(), 20000)      # virtual seconds
+                except asyncio.TimeoutError:
+                    return False
+            try:
+                await self.broker.wait_all()         # taskiq's own "wait for everything that was sent"
+            except Exception:  # noqa: BLE001   (a delivery that raised: noted per attempt already)
+                pass
+            for _ in range(3):
+                await asyncio.sleep(0)
+            if not self.pending and len(self.attempts) == seen:
+                return True
+        return False
+
+    def chain(self, tid):
+        """the deliveries of task id `tid` in the order the broker started them, in labels_driver's attempt format"""
+        mine = [st for st in self.attempts if st["tid"] == tid]
+        index = {st["n"]: i for i, st in enumerate(mine)}
+        out = []
+        for st in mine:
+            n = st["n"]
+            body = [r for r in self.body_log if r.get("attempt") == n]
+            new = [m for sender, m in self.kicks if sender == n]
+            at = {"broker": 0, "task_id": tid, "callback_raised": st["raised"], "pre": None, "ctx": None, "post": None,
+                  "post_res": None, "res": None, "act": None, "raised": None, "nbody": len(body), "args": None, "done": st["done"],
+                  "resent": [dict(broker=0, task_id=m2.task_id, task_name=m2.task_name, bm_labels=LD.enc_dict(m2.labels),
+                                  wire=LD.wire_of(self.broker, m2)) for m2 in new], "nsaves": 0}
+            for ev in self.log:
+                if ev[-1] != n:
+                    continue
+                if ev[0] == "pre":
+                    at["pre"], at["pre_tid"], at["name"], at["margs"] = ev[2], ev[1], ev[3], [ev[4], ev[5]]
+                elif ev[0] == "post":
+                    at["post"], at["post_res"] = ev[2], ev[3]
+                elif ev[0] == "save":
+                    at["res"], at["res_tid"], at["res_err"], at["res_exc"] = ev[2], ev[1], ev[3], ev[4]
+                    at["nsaves"] += 1
+            if body:
+                r = body[0]
+                at.update(ctx=r["ctx"], act=r["act"], raised=r.get("raised"), args=[r["args"], r["kwargs"]], ctx_tid=r["tid"])
+            out.append(at)
+        return out, index
+
+    async def settled(self, tid, index, quiet):
+        """what the result backend holds for the task id now that nothing is running any more"""
+        be = self.backend
+        saves = [(index.get(at), r) for at, t, r in be.saved if t == tid]
+        out = {"quiet": bool(quiet), "save_order": [i for i, _ in saves], "pending": self.pending, "dropped": self.dropped,
+               "orphans": len([r for r in self.body_log if r.get("attempt") is None])
+               + len([e for e in self.log if e[-1] is None]),
+               "bystanders": [st["done"] and st["raised"] is None for st in self.attempts if st["tid"] != tid],
+               "other_senders": len([1 for sender, m in self.kicks if m.task_id == tid and sender is not None and sender not in index])}
+        ready = await be.is_result_ready(tid)
+        out["held"] = bool(ready)
+        if ready:
+            held = await be.get_result(tid)
+            frm, by = sorted({i for i, r in saves if r is held and i is not None}), "identity"
+            if not frm:
+                frm, by = sorted({i for i, r in saves if i is not None and _result_content(r) == _result_content(held)}), "content"
+            out.update(held_from=frm, by=by, held_is_err=bool(held.is_err),
+                       held_exc=type(held.error).__name__ if held.error is not None else None)
+        return out
+
+
+def run_inmem(lc, case, opts):
+    """the fixed C11 history (kicker, with_task_id, kiq) on an InMemScenario: one send, the broker does the rest"""
+    env = case.get("env") or {}
+    typed = case.get("typed")
+    _UID[0] += 1
+    uid = "m%d_%d" % (id(case) % 9973, _UID[0])
+    op = lc["ops"][-1]
+
+    async def main(loop):
+        loop.set_exception_handler(lambda lp, c: None)      # a delivery that raises is noted per attempt; nobody awaits its task
+        sc = InMemScenario(lc, uid, env, typed)
+        try:
+            if env.get("startup"):
+                await sc.broker.startup()
+            k = sc.tasks[0].kicker()
+            k.with_task_id("c0")
+            args, kwargs, expect = op["args"], op["kwargs"], None
+            if typed is not None:
+                RT.reset()
+                args, kwargs, expect = RT.build_call(typed, env.get("validate", True))
+            sc.plan = list(op["plan"])
+            for i in range(sc.nby):
+                await sc.by_task.kicker().with_task_id("b%d" % i).kiq(i)
+            try:
+                h = await k.kiq(*args, **kwargs)
+                kerr, hid = None, h.task_id
+            except Exception as e:  # noqa: BLE001
+                kerr, hid = "%s: %s / %r" % (type(e).__name__, e, e.__cause__), None
+            quiet = await sc.settle()
+            first = [m for sender, m in sc.kicks if sender is None and m.task_id == "c0"]
+            rec = {"op": 2, "err": kerr, "handle_id": hid, "n": len(first), "plan": op["plan"], "chain": []}
+            settled = None
+            if first:
+                m = first[0]
+                rec.update(broker=0, task_id=m.task_id, task_name=m.task_name, bm_labels=LD.enc_dict(m.labels),
+                           wire=LD.wire_of(sc.broker, m))
+                rec["chain"], index = sc.chain(m.task_id)
+                settled = await sc.settled(m.task_id, index, quiet)
+        finally:
+            if env.get("startup"):
+                await sc.broker.shutdown()
+            else:
+                sc.broker.executor.shutdown()
+        if sc.failures.errors:
+            raise RuntimeError("harness: %s" % sc.failures.errors)
+        return {"names": sc.names, "sent": [rec], "final": sc.snapshot(), "acks": [], "raised_log": sc.failures.log,
+                "typed_expect": expect, "typed_src": sc.typed_src, "teardown": list(sc.teardown), "cli_kw": None, "settled": settled,
+                "other_str": {k: [ord(c) for c in str(LD.dec({"t": "other", "k": k}))] for k in LD.OTHER_KINDS}}
+
+    return vloop.run(main)
+
+
 _UID = [0]
 
 
@@ -829,7 +1163,8 @@ def run_case(case, opts):
                    dict(op="kiq", k=0, plan=[fail_act if o == "F" else ACT[o] for o in case["outs"]],
                         args=case.get("args", []), kwargs=case.get("kwargs", {}))])
     plain = env is None and case.get("typed") is None
-    o = LD.run_case(lc, opts) if plain else run_env(lc, case, opts)
+    inmem = (env or {}).get("broker") == "inmem"
+    o = LD.run_case(lc, opts) if plain else run_inmem(lc, case, opts) if inmem else run_env(lc, case, opts)
     s = o["sent"][0]
     execs, undelivered = [], 0
     for at in s["chain"]:
@@ -847,4 +1182,17 @@ def run_case(case, opts):
         out.update(acks=o["acks"], teardown=o["teardown"], cli_kw=o["cli_kw"], raised_log=o["raised_log"])
     if case.get("typed") is not None:
         out.update(typed_expect=o["typed_expect"], typed_src=o["typed_src"])
+    if inmem:
+        # what the backend holds when everything has settled, which attempt's set_result call put it there, and the order of
+        # the set_result calls (attempt numbers = positions in execs)
+        pos, st = {}, o["settled"]
+        for ci, at in enumerate(s["chain"]):
+            if at["nbody"]:
+                pos[ci] = len(pos)
+        if st is not None:      # delivery numbers -> positions in execs (a delivery whose body never ran: -1)
+            st = dict(st, save_order=[pos.get(i, -1) for i in st["save_order"]])
+            if "held_from" in st:
+                st["held_from"] = [pos.get(i, -1) for i in st["held_from"]]
+        out.update(settled=st, nsaves=[at.get("nsaves") for at in s["chain"] if at["nbody"]],
+                   unfinished=[i for i, at in enumerate(s["chain"]) if not at.get("done")])
     return out
